@@ -875,7 +875,29 @@ def usage_scan():
              f"usage scan: {where}: an instance of {nm} is created outside a `with` item")
         n_with[nm] += 1
     need(all(v > 0 for v in n_with.values()), f"usage scan: with-item counts {n_with}")
+    # 4. Deferred.next_instance_id only feeds the default *name* of a deferred object, and inside deferred.py a
+    #    name is only read by __repr__ (names reach message texts, which no comparison looks at)
+    dt = mods["deferred"]
+    dcls = [n for n in dt.body if isinstance(n, ast.ClassDef) and n.name == "Deferred"]
+    need(len(dcls) == 1, "usage scan: class Deferred not found")
+    dinit = [n for n in dcls[0].body if isinstance(n, ast.FunctionDef) and n.name == "__init__"]
+    need(len(dinit) == 1, "usage scan: Deferred.__init__ not found")
+    need("self.name = name or f'd{Deferred.next_instance_id}'" in [src(x) for x in dinit[0].body],
+         "usage scan: Deferred.__init__ no longer uses next_instance_id only for the default name")
+    n_reads = 0
+    for m, t in mods.items():
+        for n in ast.walk(t):
+            if isinstance(n, ast.Attribute) and n.attr == "next_instance_id":
+                need(m == "deferred" and src(n) == "Deferred.next_instance_id", f"usage scan: {m}.py:{n.lineno}: next_instance_id accessed as {src(n)}")
+                n_reads += 1
+    need(n_reads == 3, f"usage scan: next_instance_id is accessed {n_reads} times (expected: default name, increment, initialisation)")
+    for cls in [n for n in dt.body if isinstance(n, ast.ClassDef)]:
+        for fn in [n for n in cls.body if isinstance(n, ast.FunctionDef)]:
+            for n in ast.walk(fn):
+                if isinstance(n, ast.Attribute) and n.attr == "name" and is_name(n.value, "self") and isinstance(n.ctx, ast.Load):
+                    need(fn.name == "__repr__", f"usage scan: deferred.py:{n.lineno}: the name of a deferred object is read in {cls.name}.{fn.name}")
     return [f"run-time writers of module-level objects: exactly {len(STATE_WRITERS)} (the three context managers and Deferred.__init__'s name counter);",
+            "Deferred.next_instance_id feeds only the default name of a deferred object; deferred.py reads names only in __repr__;",
             f"import-time registrars {sorted(f for _, f in IMPORT_TIME_FUNCS)} referenced {len(refs_ok)} times, always at module level;",
             f"state attributes {sorted(STATE_ATTRS)} accessed at {len(findings['state'])} places, all inside the owning classes, not_ready, emit_report;",
             f"with items: try_compute x{n_with['TryCompute']}, Awaiting(...) x{n_with['Awaiting']}, handle_reports(...) x{n_with['handle_reports']}; no other use of the classes."]
